@@ -40,8 +40,15 @@ libfuzzer_sys::fuzz_target!(init: { ctx::install_panic_hook(); }, |data: &[u8]| 
     }
     let mut ctx = Ctx::new(Tier::Thorough, 0);
     ctx.cur_workload = "fuzz".into();
-    c01::C01::new().judge(&mut ctx, data, true);
-    c04::C04::new().exercise(&mut ctx, data);
+    // VFUZZ_PROP selects the oracle (and with it what the coverage feedback rewards)
+    static PROP: std::sync::OnceLock<String> = std::sync::OnceLock::new();
+    let prop = PROP.get_or_init(|| std::env::var("VFUZZ_PROP").unwrap_or_else(|_| "both".into()));
+    if prop != "C04" {
+        c01::C01::new().judge(&mut ctx, data, true);
+    }
+    if prop != "C01" {
+        c04::C04::new().exercise(&mut ctx, data);
+    }
     if !ctx.violations.is_empty() {
         for v in &ctx.violations {
             eprintln!("FUZZ-VIOLATION sig={} {}", v.sig, v.detail);
